@@ -53,7 +53,7 @@ def gen_opts(rng, spec, tids, mods):
     if rng.random() < 0.25:
         lnames = [ls['name'] for ls in spec['layers']]
         sub = rng.sample(lnames, rng.randint(1, len(lnames)))
-        o['layer'] = [s + '$' for s in sub]
+        o['layer'] = [gen.re_escape(s) + '$' for s in sub]
         if rng.random() < 0.3:
             o['layer'].append('UnitTests')
     r = rng.random()
